@@ -1374,6 +1374,11 @@ func (q *seqGen) step() {
 			if g.Rng.Intn(6) == 0 {
 				n = g.Pick(61, 62, 63, 64, 65, 100)
 			}
+			if g.Rng.Intn(60) == 0 { // int(n) < 0: no ones at all (outside the specification's domain)
+				q.wf = false
+				q.write(1, fmt.Sprintf("wn:%d", uint64(1)<<63+uint64(g.Rng.Intn(5))))
+				return
+			}
 			q.write(n+1, fmt.Sprintf("wn:%d", n))
 		case k < 19:
 			mx := int(g.U64() >> uint(1+g.Rng.Intn(63)))
